@@ -213,6 +213,28 @@ func genCase(r *kit.Rand, idx int, tier string) []string {
 		}
 		ops = append(ops, fmt.Sprintf("write %s %s %s", kit.Esc(db), kit.Esc(rp), strings.Join(toks, ",")))
 	}
+	drainAt := -1
+	if r.Chance(1, 4) {
+		drainAt = nOps/2 + r.Intn(nOps/2+1)
+	}
+	drained := false
+	doSWrite := func() {
+		db, rp := kit.Pick(r, genDBs), kit.Pick(r, genRPs)
+		if focus && r.Chance(2, 3) {
+			db, rp = "d1", "autogen"
+		}
+		var toks []string
+		for j := r.Range(1, 4); j > 0; j-- {
+			pid++
+			p := &point{id: pid, name: kit.Pick(r, wnames), v: int64(r.Intn(10)), host: kit.Pick(r, []string{"a", "b"})}
+			if p.name == "" {
+				p.host = ""
+			}
+			p.pass = passOf(p)
+			toks = append(toks, pointTok(p))
+		}
+		ops = append(ops, fmt.Sprintf("swrite %s %s %s", kit.Esc(db), kit.Esc(rp), strings.Join(toks, ",")))
+	}
 	doStart(ids[0])
 	if focus {
 		for _, id := range ids[1:] {
@@ -222,6 +244,42 @@ func genCase(r *kit.Rand, idx int, tier string) []string {
 		}
 	}
 	for i := 0; i < nOps; i++ {
+		if i == drainAt {
+			// Drain: the executions end but stay in tm.tasks; afterwards WritePoints is refused, points come through a
+			// StreamCollector, and every id may be started again (a live one still may not)
+			ops = append(ops, "drain")
+			drained = true
+			running = map[string]*taskDef{}
+			continue
+		}
+		if drained {
+			switch k := r.Intn(100); {
+			case k < 45:
+				doSWrite()
+			case k < 55:
+				doWrite(r.Range(1, 3)) // refused: err:closed
+			case k < 80:
+				id := kit.Pick(r, ids)
+				if running[id] != nil && r.Chance(1, 2) {
+					ops = append(ops, "stop "+kit.Esc(id))
+					delete(running, id)
+				}
+				doStart(id) // an ended execution: accepted; a live one: refused
+			case k < 92:
+				id := kit.Pick(r, ids)
+				ops = append(ops, "stop "+kit.Esc(id))
+				delete(running, id)
+			default:
+				id := kit.Pick(r, ids)
+				ops = append(ops, "delete "+kit.Esc(id))
+				delete(running, id)
+			}
+			continue
+		}
+		if r.Chance(1, 25) {
+			doSWrite()
+			continue
+		}
 		switch k := r.Intn(100); {
 		case k < 7:
 			// one HTTP request: precision, absent rp / db parameter, possibly a malformed line somewhere in the body
@@ -320,8 +378,14 @@ func genCase(r *kit.Rand, idx int, tier string) []string {
 	}
 	if (tier == "thorough" && idx%25 == 7) || (tier != "thorough" && idx%60 == 7) {
 		// more than one edge buffer (1000) in a single call
-		doWrite(1500)
+		if !drained {
+			doWrite(1500)
+		}
 	}
-	doWrite(r.Range(1, 4))
+	if drained {
+		doSWrite()
+	} else {
+		doWrite(r.Range(1, 4))
+	}
 	return ops
 }
